@@ -42,18 +42,21 @@ func init() {
 // same binary, C19_CHILD=1) speaking JSON lines; a dead child is reported as
 // a crash of that edit and the child is restarted.
 type c19ApplyReq struct {
-	Src  string  `json:"src"`
-	Path string  `json:"path"`
-	Edit c19Edit `json:"edit"`
+	Src   string    `json:"src"`
+	Path  string    `json:"path"`
+	Edit  c19Edit   `json:"edit"`
+	Files []c19File `json:"files,omitempty"` // several files in one Refactor invocation
 }
 
 type c19ApplyResp struct {
-	Out     string `json:"out"`
-	Enc     string `json:"enc"`
-	Count   int    `json:"count"`
-	Err     string `json:"err"`
-	NoSplit bool   `json:"nosplit"`
-	Incons  string `json:"inconsistent"` // compiled AST tables no longer match its lists after a rename
+	Out     string   `json:"out"`
+	Enc     string   `json:"enc"`
+	Count   int      `json:"count"`
+	Err     string   `json:"err"`
+	NoSplit bool     `json:"nosplit"`
+	Incons  string   `json:"inconsistent"` // compiled AST tables no longer match its lists after a rename
+	Outs    []string `json:"outs,omitempty"`
+	Encs    []string `json:"encs,omitempty"`
 }
 
 func c19ChildMain() {
@@ -75,6 +78,21 @@ func c19ChildMain() {
 			return
 		}
 		var resp c19ApplyResp
+		if len(req.Files) > 0 {
+			outs, encs, ferr := c19ApplyFiles(req.Files, req.Edit)
+			resp.Outs, resp.Encs = outs, encs
+			if ferr != nil {
+				resp.Err = ferr.Error()
+			}
+			b, _ := json.Marshal(resp)
+			out.Write(b)
+			out.WriteByte('\n')
+			out.Flush()
+			if err != nil {
+				return
+			}
+			continue
+		}
 		newSrc, edited, count, incons, aerr := c19Apply(req.Src, req.Path, req.Edit)
 		resp.Out, resp.Count, resp.Incons = newSrc, count, incons
 		if aerr != nil {
@@ -160,12 +178,16 @@ func (w *c19Worker) stop() {
 }
 
 func (w *c19Worker) apply(src, path string, e c19Edit) c19ApplyResp {
+	return w.request(c19ApplyReq{Src: src, Path: path, Edit: e})
+}
+
+func (w *c19Worker) request(req c19ApplyReq) c19ApplyResp {
 	if w.cmd == nil {
 		if err := w.start(); err != nil {
 			return c19ApplyResp{Err: "harness: cannot start child: " + err.Error()}
 		}
 	}
-	b, _ := json.Marshal(c19ApplyReq{Src: src, Path: path, Edit: e})
+	b, _ := json.Marshal(req)
 	w.in.Write(b)
 	w.in.WriteByte('\n')
 	w.in.Flush()
@@ -1185,7 +1207,7 @@ func runC19(c *Ctx) {
 	savedLog := util.ENABLE_LOGGING
 	util.ENABLE_LOGGING = false
 	defer func() { util.ENABLE_LOGGING = savedLog }()
-	r.Rule = "programs: corpus/C19/*.mro + the repository's single-file .mro testdata (syntax/testdata, refactoring/testdata, test/*) + PRNG-generated compiling programs (stages, nested pipelines, aliased calls incl. aliases that are other callables' names, map calls, disabled modifiers bound to inputs/outputs, struct outputs with projections, whole-call struct bindings, `* = self` and `* = self.pt` wildcards, retains, shared in/out names). For EVERY callable: rename to a fresh name and to every colliding call alias; for EVERY input/output: rename (fresh, and to a name of the opposite direction), remove; plus removeUnused (calls / outputs / both). Each edit: real Refactor->Apply->Format->recompile->MakeCallGraph, oracle = graph equal modulo the renaming or minus removed elements, X->Y->X byte-identical + EquivalentCall; the Lean model's edited AST compared with the real one. Multi-step edits: PRNG-chosen ordered pairs and triples of operations in ONE Refactor call (as `mro edit` with several options applies them: callable renames, input renames, output renames, input removals, output removals, remove-unused loop), later steps addressing the names produced by earlier ones, biased towards a callable rename followed by an operation on the renamed callable; oracle = the one-shot result equals the composition of the single steps done on freshly compiled programs (text, else compile + identical call graph) and equals the model's composition; after every rename the compiled AST's lookup tables must still match its lists. Generator name pools contain prefix-related names for parameters (pt/pt_alt, xt/xt_alt, a/a_2, f/f_idx), callables (X/X_B/X_P) and call ids (callee_N, callid_X); struct-typed outputs are projected in call bindings, disabled modifiers, returns and retains. non-trivial = the edit changed the program text; distinct = distinct (program, edit)."
+	r.Rule = "programs: corpus/C19/*.mro + the repository's single-file .mro testdata (syntax/testdata, refactoring/testdata, test/*) + PRNG-generated compiling programs (stages, nested pipelines, aliased calls incl. aliases that are other callables' names, map calls, disabled modifiers bound to inputs/outputs, struct outputs with projections, whole-call struct bindings, `* = self` and `* = self.pt` wildcards, retains, shared in/out names). For EVERY callable: rename to a fresh name and to every colliding call alias; for EVERY input/output: rename (fresh, and to a name of the opposite direction), remove; plus removeUnused (calls / outputs / both). Each edit: real Refactor->Apply->Format->recompile->MakeCallGraph, oracle = graph equal modulo the renaming or minus removed elements, X->Y->X byte-identical + EquivalentCall; the Lean model's edited AST compared with the real one. Multi-step edits: PRNG-chosen ordered pairs and triples of operations in ONE Refactor call (as `mro edit` with several options applies them: callable renames, input renames, output renames, input removals, output removals, remove-unused loop), later steps addressing the names produced by earlier ones, biased towards a callable rename followed by an operation on the renamed callable; oracle = the one-shot result equals the composition of the single steps done on freshly compiled programs (text, else compile + identical call graph) and equals the model's composition; after every rename the compiled AST's lookup tables must still match its lists. Generator name pools contain prefix-related names for parameters (pt/pt_alt, xt/xt_alt, a/a_2, f/f_idx), callables (X/X_B/X_P) and call ids (callee_N, callid_X); struct-typed outputs are projected in call bindings, disabled modifiers, returns and retains. remove-unused is also run with sampled subsets of the pipelines as -top-calls (all subsets for <= 3 pipelines; nested top calls in both declaration orders; every top call keeps its outputs and its own abstract-call graph only loses unused elements). One Refactor invocation over 2-3 files: unrelated programs with clashing callable/parameter names, unrelated with disjoint names, and a program split into lib.mro + main.mro (@include), in both file orders; oracle = every file comes out exactly as when the edit is run on its own program alone (untouched programs byte-identical), lib+main = the edited unsplit program. non-trivial = the edit changed the program text; distinct = distinct (program, edit)."
 	if c.Drv != nil {
 		if rep := c.Drv.Ask("C19.ping"); rep != "pong" {
 			r.note("Lean driver has no C19 model (reply %q): model correspondence skipped", rep)
@@ -1203,7 +1225,7 @@ func runC19(c *Ctx) {
 	if os.Getenv("C19_ONLY_CORPUS") == "" {
 		cases = append(cases, c19RepoPrograms(c.RepoDir)...)
 	}
-	nGen := 120
+	nGen := 100
 	if c.Thorough {
 		nGen = 1000
 	}
@@ -1469,5 +1491,18 @@ func runC19(c *Ctx) {
 			}
 		}
 	}
+	// ---- one Refactor invocation over several files ----
+	var gens []*c19Case
+	for _, cs := range cases {
+		if strings.HasPrefix(cs.Name, "gen-") {
+			if _, err := c19Compile(cs.Src, cs.Path); err == nil {
+				gens = append(gens, cs)
+			}
+		}
+	}
+	if !c.Thorough && len(gens) > 40 {
+		gens = gens[:40]
+	}
+	c19RunFiles(c, gens, func() string { freshN++; return fmt.Sprintf("ZZ_NEW%d", freshN) })
 	r.note("programs: %d (generated %d, rejected by the compiler %d); time spent shrinking failing inputs: %.1fs; child restarts after a crash: %d", len(cases), made, rejected, shrinkTime.Seconds(), c19W.deaths)
 }
